@@ -658,54 +658,8 @@ def implField (impl : String) (key : String) : String :=
 
 def keysOf (c : Option Ctx) : List String := (c.getD []).map (·.1)
 
-def step (c impl : String) : String :=
-  match fields c with
-  | [kind, tr, v] =>
-    if kind != "conv" && kind != "convraw" && kind != "cast" && kind != "slow" then "SKIP unknown-case" else
-    if kind == "slow" then
-      -- liveness of the converter: the model decides instantly; the real code has to answer within the deadline
-      match parseTypeRef tr, parseValue v with
-      | some tref, some pv =>
-        let expected := match decode tref with
-          | none => "done DECERR"
-          | some t => "done " ++ fmtConv (convert Oracle.std t (asInterface pv))
-        if impl == "TIMEOUT" then
-          specViol s!"the numeric converter did not finish within 5 s on a {(match pv with | .str b => b.length | _ => 0)}-byte string (expected {expected}): its error message formats the big.Float with String(), quadratic in the decimal exponent"
-        else if impl == expected then ok "conv-prompt" else modelDiff expected
-      | _, _ => "SKIP unparsable-slow-case"
-    else
-    if kind == "cast" then
-      match parseParams tr, parseCtx v with
-      | some ps, some ctx =>
-        let m := ctx.getD []
-        let expected := match castContext Oracle.std ps m with
-          | .ok typed => if m.isEmpty then "nil" else encT (.map typed)
-          | .typeErr => "ERR:type"
-          | .panic => "PANIC"
-        if impl == expected then ok ("cast-" ++ (if expected.startsWith "ERR" then "reject" else "accept"))
-        else if !(impl.startsWith "ERR") && impl != "PANIC" && expected.startsWith "ERR" then
-          specViol s!"CastContextToTypedParameters accepted a context the declared parameter types reject (expected {expected})"
-        else modelDiff expected
-      | _, _ => "SKIP unparsable-cast-case"
-    else
-    match parseTypeRef tr, parseValue v with
-    | some tref, some pv =>
-      match decode tref with
-      | none => if impl == "DECERR" then ok "conv-undecodable-type" false else modelDiff "DECERR"
-      | some t =>
-        let jv := if kind == "conv" then asInterface pv else rawOf pv
-        let expected := fmtConv (convert Oracle.std t jv)
-        if impl == expected then
-          ok (kind ++ "-" ++ (if expected == "ERR" then "reject" else if expected == "PANIC" then "panic" else "accept"))
-        else if kind == "conv" && impl == "PANIC" then
-          specViol s!"the converter panicked on a value that arrived through structpb (expected {expected})"
-        else if expected == "ERR" && impl != "ERR" && impl != "DECERR" then
-          specViol s!"a value that is not of the declared parameter type was accepted as {impl}"
-        else if expected != "ERR" && expected != "PANIC" && impl != "ERR" && impl != "DECERR" && impl != "PANIC" then
-          specViol s!"the value was converted to {impl}, the declared type's conversion gives {expected}"
-        else modelDiff expected
-    | _, _ => "SKIP unparsable-conv-case"
-  | ["eval", tupNameH, hasEC, condNameH, paramsS, ekind, exprS, tupS, reqS, extraS] =>
+/-- an `eval` case: the model's verdict for the implementation output `impl` -/
+def stepEval (tupNameH hasEC condNameH paramsS ekind exprS tupS reqS extraS impl : String) : String :=
     match unhexStr tupNameH, unhexStr condNameH, parseParams paramsS, parseCtx tupS, parseCtx reqS, parseCtx extraS with
     | some tupName, some condName, some ps, some tup, some req, some extra =>
       let ex : Option (Option Oracle.Ex) :=
@@ -756,6 +710,62 @@ def step (c impl : String) : String :=
           specViol s!"Evaluate reported ConditionMet=true ({iE}); expected {fmtEval mE}"
         else modelDiff expected
     | _, _, _, _, _, _ => "SKIP unparsable-eval-case"
+
+def step (c impl : String) : String :=
+  match fields c with
+  | [kind, tr, v] =>
+    if kind != "conv" && kind != "convraw" && kind != "cast" && kind != "slow" then "SKIP unknown-case" else
+    if kind == "slow" then
+      -- liveness of the converter: the model decides instantly; the real code has to answer within the deadline
+      match parseTypeRef tr, parseValue v with
+      | some tref, some pv =>
+        let expected := match decode tref with
+          | none => "done DECERR"
+          | some t => "done " ++ fmtConv (convert Oracle.std t (asInterface pv))
+        if impl == "TIMEOUT" then
+          specViol s!"the numeric converter did not finish within 5 s on a {(match pv with | .str b => b.length | _ => 0)}-byte string (expected {expected}): its error message formats the big.Float with String(), quadratic in the decimal exponent"
+        else if impl == expected then ok "conv-prompt" else modelDiff expected
+      | _, _ => "SKIP unparsable-slow-case"
+    else
+    if kind == "cast" then
+      match parseParams tr, parseCtx v with
+      | some ps, some ctx =>
+        let m := ctx.getD []
+        let expected := match castContext Oracle.std ps m with
+          | .ok typed => if m.isEmpty then "nil" else encT (.map typed)
+          | .typeErr => "ERR:type"
+          | .panic => "PANIC"
+        if impl == expected then ok ("cast-" ++ (if expected.startsWith "ERR" then "reject" else "accept"))
+        else if !(impl.startsWith "ERR") && impl != "PANIC" && expected.startsWith "ERR" then
+          specViol s!"CastContextToTypedParameters accepted a context the declared parameter types reject (expected {expected})"
+        else modelDiff expected
+      | _, _ => "SKIP unparsable-cast-case"
+    else
+    match parseTypeRef tr, parseValue v with
+    | some tref, some pv =>
+      match decode tref with
+      | none => if impl == "DECERR" then ok "conv-undecodable-type" false else modelDiff "DECERR"
+      | some t =>
+        let jv := if kind == "conv" then asInterface pv else rawOf pv
+        let expected := fmtConv (convert Oracle.std t jv)
+        if impl == expected then
+          ok (kind ++ "-" ++ (if expected == "ERR" then "reject" else if expected == "PANIC" then "panic" else "accept"))
+        else if kind == "conv" && impl == "PANIC" then
+          specViol s!"the converter panicked on a value that arrived through structpb (expected {expected})"
+        else if expected == "ERR" && impl != "ERR" && impl != "DECERR" then
+          specViol s!"a value that is not of the declared parameter type was accepted as {impl}"
+        else if expected != "ERR" && expected != "PANIC" && impl != "ERR" && impl != "DECERR" && impl != "PANIC" then
+          specViol s!"the value was converted to {impl}, the declared type's conversion gives {expected}"
+        else modelDiff expected
+    | _, _ => "SKIP unparsable-conv-case"
+  | ["eval", tupNameH, hasEC, condNameH, paramsS, ekind, exprS, tupS, reqS, extraS] =>
+    stepEval tupNameH hasEC condNameH paramsS ekind exprS tupS reqS extraS impl
+  | ["sloweval", tupNameH, hasEC, condNameH, paramsS, ekind, exprS, tupS, reqS, extraS] =>
+    if impl == "TIMEOUT" then
+      specViol "EvaluateTupleCondition did not finish within 5 s: the numeric converter's error message formats the big.Float with String(), quadratic in the decimal exponent"
+    else if impl.startsWith "done " then
+      stepEval tupNameH hasEC condNameH paramsS ekind exprS tupS reqS extraS (impl.drop 5).toString
+    else modelDiff "done …"
   | _ => "SKIP unknown-case"
 
 def main : IO Unit := Proto.run step
